@@ -237,12 +237,22 @@ def rand_meta(rng, pool, used, schemas=('http://s/1', 'http://s/2', 'http://s/3'
     opts += [('mosExternalMetadata', s) for s in schemas if ('mosExternalMetadata', s) not in used]
     if not opts:
         return None
+    if ('mosExternalMetadata', None) not in used and rng.random() < 0.12:
+        # a block without any mosSchema tag: its identity is "no schema"
+        used.add(('mosExternalMetadata', None))
+        return E('mosExternalMetadata', None, E('mosScope', 'PLAYLIST'),
+                 E('mosPayload', None, rich_blob(rng, 1, pool, 'info')))
     c = rng.choice(opts)
     if isinstance(c, tuple):
         used.add(c)
         return E('mosExternalMetadata', None, E('mosScope', 'PLAYLIST'), E('mosSchema', c[1]),
                  E('mosPayload', None, rich_blob(rng, 2, pool, 'info')))
     used.add((c, None))
+    if rng.random() < 0.25:
+        # a structured value (children, attributes) instead of a plain text value
+        return E(c, None, E('name', rng.choice(pool)), E('region', rng.choice(pool)), attrib={'kind': 'structured'})
+    if rng.random() < 0.15:
+        return E(c, rng.choice(pool), attrib={'kind': rng.choice(['tv', 'radio'])})
     return E(c, rng.choice(pool + [None]))       # None: an empty element such as <roTrigger/>
 
 
@@ -481,8 +491,30 @@ def _rand_message(rng, state, kind, message_id, ids, pool=None, ro_id='RO', timi
     raise ValueError(kind)
 
 
+def drop_one_element(rng, doc):
+    """Delete one element (any element below the root) from a well-formed
+    document: messages that lack a tag the schema requires, in every position."""
+    from xml.etree import ElementTree as ET
+    try:
+        root = ET.fromstring(doc)
+    except ET.ParseError:
+        return doc
+    pairs = [(p, c) for p in root.iter() for c in p]
+    if not pairs:
+        return doc
+    parent, child = rng.choice(pairs)
+    parent.remove(child)
+    return ET.tostring(root, encoding='unicode').replace('\r', '&#13;')
+
+
 def rand_message(rng, state, kind, message_id, ids, **kw):
+    other_ro = kw.pop('other_ro', 0.0)
+    drop = kw.pop('drop', 0.0)
+    if other_ro and rng.random() < other_ro:
+        kw['ro_id'] = 'SOME OTHER RO'      # a message addressed to another running order is merged all the same
     doc = _rand_message(rng, state, kind, message_id, ids, **kw)
+    if drop and rng.random() < drop:
+        return drop_one_element(rng, doc)
     return xml_noise(rng, doc) if kw.get('rich', True) else doc
 
 
@@ -555,6 +587,9 @@ def story_grid_messages(S, kmax=3, full=True):
     for k in list(S) + [UNK, BLANK]:
         yield 'roStorySend', dict(story_ref=k, body=[E('p', 'sent'), B.item('si1', 'x', tag='storyItem')],
                                   fields=[E('storySlug', 'resent'), 'BODY', B.timing(text_time=4, media_time=4)])
+    # a roStorySend that lacks its storyBody (not schema-shaped: only "raise => unchanged" is judged)
+    for k in list(S):
+        yield 'roStorySend', dict(story_ref=k, fields=[E('storySlug', 'no body'), 'NOBODY'])
     # roStoryMove
     for s in list(S) + [UNK, BLANK]:
         for t in list(S) + [UNK, BLANK, ABSENT]:
